@@ -788,10 +788,17 @@ class ManifestRecursiveLoader:
         renamed_manifests = {}
         for mpath, relpath, m in self._iter_manifests_for_saving():
             for e in m.entries:
-                if e.tag != 'MANIFEST':
+                if e.tag not in ('MANIFEST', 'DATA', 'MISC', 'EBUILD',
+                                 'AUX'):
                     continue
 
                 fullpath = os.path.join(relpath, e.path)
+                # a Manifest can additionally be listed by another
+                # kind of file entry, keep that one current as well
+                if (e.tag != 'MANIFEST'
+                        and fullpath not in self.loaded_manifests
+                        and fullpath not in renamed_manifests):
+                    continue
                 if not force and fullpath not in self.updated_manifests:
                     assert fullpath not in renamed_manifests
                     continue
